@@ -132,4 +132,518 @@ theorem ra_runRounds_racc (ins : List PartyIn) (n t : Nat) (l : List Nat) (hl : 
     obtain ⟨m, rfl⟩ : ∃ m, k = m + 6 := ⟨k - 6, by omega⟩
     exact ra_genRecStep_racc _ _ _ _ _ _ h
 
+/-! ### (B) the shapes of the step functions of rounds 3, 4, 5 -/
+
+theorem ra_genResolve_shape (st : GenSt) (I : Inbox) (st' : GenSt) (I' : Inbox) (ops : List Op)
+    (s : Status) (h : genResolve G st I = .ok (st', I', ops, s)) :
+    (s = .run ∨ s = .ret false) ∧ st'.n = st.n ∧ st'.t = st.t ∧ st'.i = st.i ∧ st'.vi = st.vi ∧
+    st'.ga = st.ga ∧ st'.sfb = st.sfb ∧ st'.z = st.z ∧ st'.yi = st.yi ∧ st'.racc = st.racc ∧
+    st'.x = sumMod G.q st'.s st'.qual ∧
+    (s = .run → st'.A = st.A.set st.i (st.ga.map (fun v => if st.sfb then v + 1 else v)) ∧
+      st'.qual.contains st.i = true) := by
+  simp only [genResolve, bind, Except.bind] at h
+  cases hg : genResolveGo G st (List.range st.n) I st.s st.sp st.compl with
+  | error e => rw [hg] at h; cases h
+  | ok R =>
+    obtain ⟨I1, s1, sp, cm⟩ := R
+    rw [hg] at h
+    simp only at h
+    cases hgs : gaList G s1 with
+    | error e => rw [hgs] at h; cases h
+    | ok gs =>
+    rw [hgs] at h
+    simp only at h
+    split at h
+    · simp only [pure, Except.pure, Except.ok.injEq, Prod.mk.injEq] at h
+      obtain ⟨rfl, _, _, rfl⟩ := h
+      exact ⟨Or.inr rfl, rfl, rfl, rfl, rfl, rfl, rfl, rfl, rfl, rfl, rfl, fun h => by cases h⟩
+    · rename_i hq
+      split at h
+      · simp only [pure, Except.pure, Except.ok.injEq, Prod.mk.injEq] at h
+        obtain ⟨rfl, _, _, rfl⟩ := h
+        exact ⟨Or.inr rfl, rfl, rfl, rfl, rfl, rfl, rfl, rfl, rfl, rfl, rfl, fun h => by cases h⟩
+      · split at h
+        · simp only [pure, Except.pure, Except.ok.injEq, Prod.mk.injEq] at h
+          obtain ⟨rfl, _, _, rfl⟩ := h
+          exact ⟨Or.inr rfl, rfl, rfl, rfl, rfl, rfl, rfl, rfl, rfl, rfl, rfl, fun h => by cases h⟩
+        · simp only [pure, Except.pure, Except.ok.injEq, Prod.mk.injEq] at h
+          obtain ⟨rfl, _, _, rfl⟩ := h
+          refine ⟨Or.inl rfl, rfl, rfl, rfl, rfl, rfl, rfl, rfl, rfl, rfl, rfl, fun _ => ⟨rfl, ?_⟩⟩
+          simpa using hq
+
+theorem ra_genReadAnswers_own (st : GenSt) (j : Nat) (hj : j ≠ st.i) (f : Nat) (I : Inbox) (s sp : List Int)
+    (cm : List Nat) (I' : Inbox) (s' sp' : List Int) (cm' : List Nat)
+    (h : genReadAnswers G st j f I s sp cm = .ok (I', s', sp', cm')) :
+    s'.length = s.length ∧ getI s' st.i = getI s st.i :=
+  ⟨(genReadAnswers_length G st j f I s sp cm I' s' sp' cm' h).1,
+    (genReadAnswers_other G st j f I s sp cm I' s' sp' cm' h st.i (Ne.symm hj)).1⟩
+
+theorem ra_genResolveGo_own (st : GenSt) (idx : List Nat) (I : Inbox) (s sp : List Int) (cm : List Nat)
+    (I' : Inbox) (s' sp' : List Int) (cm' : List Nat)
+    (h : genResolveGo G st idx I s sp cm = .ok (I', s', sp', cm')) :
+    s'.length = s.length ∧ getI s' st.i = getI s st.i := by
+  induction idx generalizing I s sp cm with
+  | nil =>
+    simp only [genResolveGo, Except.ok.injEq, Prod.mk.injEq] at h
+    obtain ⟨_, rfl, _, _⟩ := h
+    exact ⟨rfl, rfl⟩
+  | cons k rest ih =>
+    rcases genResolveGo_step G st k rest I s sp cm _ h with
+      ⟨cm1, _, _, _, h'⟩ | ⟨hk, I1, s1, sp1, cm1, hr, h'⟩
+    · exact ih _ _ _ _ h'
+    · obtain ⟨a1, a2⟩ := ih _ _ _ _ h'
+      obtain ⟨b1, b2⟩ := ra_genReadAnswers_own st k hk _ _ _ _ _ _ _ _ _ hr
+      exact ⟨a1.trans b1, a2.trans b2⟩
+
+theorem ra_genExtractCheck_shape (st : GenSt) (I : Inbox) (st' : GenSt) (I' : Inbox) (ops : List Op)
+    (s : Status) (h : genExtractCheck G st I = .ok (st', I', ops, s)) :
+    ∃ I1 A' cm, genReadA G st (List.range st.n) I st.A [] = .ok (I1, A', cm) ∧
+      st' = { st with A := A', compl := sortUniq st.n cm } ∧ s = .run := by
+  unfold genExtractCheck at h
+  obtain ⟨⟨I1, A', cm⟩, h1, h⟩ := ag_bind_ok _ _ _ h
+  simp only [pure, Except.pure, Except.ok.injEq, Prod.mk.injEq] at h
+  obtain ⟨rfl, _, _, rfl⟩ := h
+  exact ⟨I1, A', cm, h1, rfl, rfl⟩
+
+theorem ra_genReadA_own (st : GenSt) (idx : List Nat) (I : Inbox) (A : List (List Int)) (cm : List Nat)
+    (I' : Inbox) (A' : List (List Int)) (cm' : List Nat)
+    (h : genReadA G st idx I A cm = .ok (I', A', cm')) : getRow A' st.i = getRow A st.i := by
+  induction idx generalizing I A cm with
+  | nil =>
+    simp only [genReadA, Except.ok.injEq, Prod.mk.injEq] at h
+    obtain ⟨_, rfl, _⟩ := h
+    rfl
+  | cons k rest ih =>
+    rcases genReadA_step G st k rest I A cm _ h with ⟨_, h'⟩ | ⟨hk, _, c, I1, row, rhs, _, _, h'⟩
+    · exact ih _ _ _ h'
+    · rw [ih _ _ _ h', getRow_set_ne _ _ _ _ (Ne.symm hk)]
+
+theorem ra_genReadExtract_mono (st : GenSt) (j : Nat) (f : Nat) (I : Inbox) (cm : List Nat) (I' : Inbox)
+    (cm' : List Nat) (h : genReadExtract G st j f I cm = .ok (I', cm')) : ∀ x ∈ cm, x ∈ cm' := by
+  induction f generalizing I cm with
+  | zero =>
+    simp only [genReadExtract, Except.ok.injEq, Prod.mk.injEq] at h
+    obtain ⟨_, rfl⟩ := h
+    exact fun _ hx => hx
+  | succ f ih =>
+    unfold genReadExtract at h
+    rcases hp1 : I.popB none j with ⟨_ | w, I1⟩
+    · rw [hp1] at h
+      simp only [Except.ok.injEq, Prod.mk.injEq] at h
+      obtain ⟨_, rfl⟩ := h
+      exact fun x hx => List.mem_append_left _ hx
+    · rw [hp1] at h
+      simp only at h
+      split at h
+      · simp only [Except.ok.injEq, Prod.mk.injEq] at h
+        obtain ⟨_, rfl⟩ := h
+        exact fun _ hx => hx
+      · rcases hp2 : I1.popB none j with ⟨_ | foo0, I2⟩
+        · rw [hp2] at h
+          simp only [Except.ok.injEq, Prod.mk.injEq] at h
+          obtain ⟨_, rfl⟩ := h
+          exact fun x hx => List.mem_append_left _ hx
+        · rw [hp2] at h
+          simp only at h
+          rcases hp3 : I2.popB none j with ⟨_ | bar0, I3⟩
+          · rw [hp3] at h
+            simp only [ag_ite_pair, ag_ite_cm, Except.ok.injEq, Prod.mk.injEq] at h
+            obtain ⟨_, rfl⟩ := h
+            exact fun x hx => List.mem_append_left _ (List.mem_append_left _ hx)
+          · rw [hp3] at h
+            simp only [ag_ite_pair, ag_ite_cm] at h
+            obtain ⟨gfoo, -, h⟩ := ag_bind_ok _ _ _ h
+            obtain ⟨hbar, -, h⟩ := ag_bind_ok _ _ _ h
+            obtain ⟨rhs, -, h⟩ := ag_bind_ok _ _ _ h
+            have hbase : ∀ x ∈ cm, x ∈ cm ++ List.replicate (if absGe foo0 G.q = true then 1 else 0) j ++
+                List.replicate (if absGe bar0 G.q = true then 1 else 0) j :=
+              fun x hx => List.mem_append_left _ (List.mem_append_left _ hx)
+            split at h
+            · exact fun x hx => ih _ _ h x (List.mem_append_left _ (hbase x hx))
+            · obtain ⟨rhs2, -, h⟩ := ag_bind_ok _ _ _ h
+              refine fun x hx => ih _ _ h x ?_
+              split <;> simp [hx]
+
+theorem ra_genExtractGo_mono (st : GenSt) (idx : List Nat) (I : Inbox) (cm : List Nat) (I' : Inbox)
+    (cm' : List Nat) (h : genExtractGo G st idx I cm = .ok (I', cm')) : ∀ x ∈ cm, x ∈ cm' := by
+  induction idx generalizing I cm with
+  | nil =>
+    simp only [genExtractGo, Except.ok.injEq, Prod.mk.injEq] at h
+    obtain ⟨_, rfl⟩ := h
+    exact fun _ hx => hx
+  | cons k rest ih =>
+    unfold genExtractGo at h
+    split at h
+    · exact ih _ _ h
+    · obtain ⟨⟨I1, cm1⟩, h1, h⟩ := ag_bind_ok _ _ _ h
+      exact fun x hx => ih _ _ h x (ra_genReadExtract_mono st k _ _ _ _ _ h1 x hx)
+
+theorem ra_genRecNext_shape (st st' : GenSt) (ops : List Op) (s : Status)
+    (h : genRecNext G st = .ok (st', ops, s)) :
+    (st.todo = [] ∧ genFinish G st = .ok st' ∧ s = .ret true) ∨
+    (st.todo ≠ [] ∧ st' = st ∧ (s = .ret false ∨ s = .run)) := by
+  unfold genRecNext at h
+  split at h
+  · rename_i htodo
+    obtain ⟨st1, h1, h⟩ := ag_bind_ok _ _ _ h
+    simp only [pure, Except.pure, Except.ok.injEq, Prod.mk.injEq] at h
+    obtain ⟨rfl, _, rfl⟩ := h
+    exact Or.inl ⟨htodo, h1, rfl⟩
+  · rename_i it rest htodo
+    right
+    refine ⟨by rw [htodo]; simp, ?_⟩
+    split at h
+    · simp only [pure, Except.pure, Except.ok.injEq, Prod.mk.injEq] at h
+      obtain ⟨rfl, _, rfl⟩ := h
+      exact ⟨rfl, Or.inl rfl⟩
+    · simp only [pure, Except.pure, Except.ok.injEq, Prod.mk.injEq] at h
+      obtain ⟨rfl, _, rfl⟩ := h
+      exact ⟨rfl, Or.inr rfl⟩
+
+theorem ra_genExtractCollect_shape (st : GenSt) (I : Inbox) (st' : GenSt) (I' : Inbox) (ops : List Op)
+    (s : Status) (h : genExtractCollect G st I = .ok (st', I', ops, s)) :
+    ∃ I1 cm, genExtractGo G st (List.range st.n) I st.compl = .ok (I1, cm) ∧
+      (s = .ret false ∨
+       (sortUniq st.n cm ≠ [] ∧ st'.racc = sortUniq st.n cm) ∨
+       (sortUniq st.n cm = [] ∧ s = .ret true ∧
+        genFinish G { st with compl := [], racc := [], todo := [] } = .ok st')) := by
+  unfold genExtractCollect at h
+  obtain ⟨⟨I1, cm⟩, h1, h⟩ := ag_bind_ok _ _ _ h
+  refine ⟨I1, cm, h1, ?_⟩
+  simp only at h
+  split at h
+  · simp only [pure, Except.pure, Except.ok.injEq, Prod.mk.injEq] at h
+    exact Or.inl h.2.2.2.symm
+  · obtain ⟨⟨st2, ops2, s2⟩, h2, h⟩ := ag_bind_ok _ _ _ h
+    simp only [pure, Except.pure, Except.ok.injEq, Prod.mk.injEq] at h
+    obtain ⟨rfl, _, _, rfl⟩ := h
+    rcases ra_genRecNext_shape _ _ _ _ h2 with ⟨h3, h4, h5⟩ | ⟨h3, h4, h5⟩
+    · simp only at h3
+      right; right
+      refine ⟨h3, h5, ?_⟩
+      rw [h3] at h4
+      exact h4
+    · simp only at h3
+      rcases h5 with h5 | h5
+      · exact Or.inl h5
+      · right; left
+        refine ⟨h3, ?_⟩
+        rw [h4]
+
+/-- the loop of `genFinish` that stores the verification keys -/
+theorem ra_viFold (F : Nat → Except Err Int) (L : List Nat) (l0 l' : List Int)
+    (h : L.foldlM (fun (l : List Int) jt => do
+      let v ← F jt
+      pure (l.set jt v)) l0 = .ok l') (i : Nat) :
+    l'.length = l0.length ∧ (i ∉ L → getI l' i = getI l0 i) ∧
+    (i ∈ L → L.Nodup → i < l0.length → ∃ v, F i = .ok v ∧ getI l' i = v) := by
+  induction L generalizing l0 with
+  | nil =>
+    simp only [List.foldlM_nil, pure, Except.pure, Except.ok.injEq] at h
+    subst h
+    exact ⟨rfl, fun _ => rfl, fun hi => by cases hi⟩
+  | cons k L ih =>
+    simp only [List.foldlM_cons] at h
+    obtain ⟨l1, h1, h⟩ := ag_bind_ok _ _ _ h
+    obtain ⟨v, hv, h1⟩ := ag_bind_ok _ _ _ h1
+    simp only [pure, Except.pure, Except.ok.injEq] at h1
+    subst h1
+    obtain ⟨a1, a2, a3⟩ := ih _ h
+    refine ⟨by rw [a1]; simp, ?_, ?_⟩
+    · intro hi
+      have hik : i ≠ k := fun e => hi (by simp [e])
+      rw [a2 (fun hh => hi (List.mem_cons_of_mem _ hh)), getI_set_ne _ _ _ _ hik]
+    · intro hi hnd hlen
+      have hnd' := List.nodup_cons.mp hnd
+      by_cases hik : i = k
+      · subst hik
+        refine ⟨v, hv, ?_⟩
+        rw [a2 hnd'.1, getI_set_self _ _ _ hlen]
+      · have hiL : i ∈ L := by
+          rcases List.mem_cons.mp hi with e | e
+          · exact absurd e hik
+          · exact e
+        exact a3 hiL hnd'.2 (by simpa using hlen)
+
+theorem ra_genFinish_shape (st st' : GenSt) (h : genFinish G st = .ok st') (hr : st.racc = []) :
+    st'.A = st.A ∧ st'.qual = st.qual ∧ st'.s = st.s ∧ st'.gs = st.gs ∧ st'.x = st.x ∧ st'.i = st.i ∧
+    st'.z = st.z ∧ st'.n = st.n ∧
+    (st.qual.foldlM (fun (l : List Int) jt => do
+      let v ← viOf G st.qual st.A jt
+      pure (l.set jt v)) st.vi = .ok st'.vi) ∧
+    st'.yi = st.qual.foldl (fun (l : List Int) j => l.set j (getI (getRow st.A j) 0)) st.yi := by
+  unfold genFinish at h
+  rw [hr] at h
+  obtain ⟨A, hA, h⟩ := ag_bind_ok _ _ _ h
+  simp only [List.foldlM_nil, pure, Except.pure, Except.ok.injEq] at hA
+  subst hA
+  obtain ⟨vi, hv, h⟩ := ag_bind_ok _ _ _ h
+  simp only [pure, Except.pure, Except.ok.injEq] at h
+  subst h
+  exact ⟨rfl, rfl, rfl, rfl, rfl, rfl, rfl, rfl, hv, rfl⟩
+
+/-! ### (C) fields of an honest party's state that the invariants of DkgAgree do not record -/
+
+theorem ra_genDeal_fields (n t i : Nat) (sfb : Bool) (strong : List Int) (weak : List Nat) (st : GenSt)
+    (ops : List Op) (s : Status) (h : genDeal G n t i sfb strong weak = .ok (st, ops, s)) :
+    st.vi = zeros n ∧ st.A = zeroRows n t ∧ st.sfb = sfb ∧ st.yi = zeros n ∧
+    gaList G ((List.range (t + 1)).map (fun k => getI strong (2 * k))) = .ok st.ga ∧
+    st.z = (zeros n).set i (getI ((List.range (t + 1)).map (fun k => getI strong (2 * k))) 0) := by
+  unfold genDeal at h
+  by_cases hlen : strong.length < 2 * (t + 1)
+  · simp [hlen, throw, throwThe, MonadExceptOf.throw, bind, Except.bind] at h
+  · simp only [hlen, if_false] at h
+    obtain ⟨ga, hga, h⟩ := ag_bind_ok _ _ _ h
+    obtain ⟨hb, -, h⟩ := ag_bind_ok _ _ _ h
+    simp only [pure, Except.pure, Except.ok.injEq, Prod.mk.injEq] at h
+    obtain ⟨rfl, _, _⟩ := h
+    exact ⟨rfl, rfl, rfl, rfl, hga, rfl⟩
+
+theorem ra_genReadShares_keep (q : Int) (st : GenSt) (L : List Nat) (I : Inbox) (s sp : List Int) (cm : List Nat) :
+    (genReadShares q st L I s sp cm).2.1.length = s.length ∧
+    getI (genReadShares q st L I s sp cm).2.1 st.i = getI s st.i := by
+  induction L generalizing I s sp cm with
+  | nil => simp [genReadShares]
+  | cons j rest ih =>
+    unfold genReadShares
+    by_cases hji : j = st.i
+    · simp only [hji, if_true]
+      exact ih _ _ _ _
+    · simp only [hji, if_false]
+      rcases I.popP j with ⟨_ | v, I1⟩
+      · exact ih _ _ _ _
+      · simp only [ag_ite_pair]
+        rcases I1.popP j with ⟨_ | w, I2⟩
+        · exact ⟨(ih _ _ _ _).1.trans (by simp), (ih _ _ _ _).2.trans (getI_set_ne _ _ _ _ (Ne.symm hji))⟩
+        · exact ⟨(ih _ _ _ _).1.trans (by simp), (ih _ _ _ _).2.trans (getI_set_ne _ _ _ _ (Ne.symm hji))⟩
+
+theorem ra_genVerify_keep (st : GenSt) (I : Inbox) (st' : GenSt) (I' : Inbox) (ops : List Op) (s : Status)
+    (h : genVerify G st I = .ok (st', I', ops, s)) :
+    st'.vi = st.vi ∧ st'.A = st.A ∧ st'.ga = st.ga ∧ st'.sfb = st.sfb ∧ st'.z = st.z ∧ st'.yi = st.yi ∧
+    st'.s.length = st.s.length ∧ getI st'.s st.i = getI st.s st.i := by
+  unfold genVerify at h
+  rcases h1 : genReadC G st (List.range st.n) I st.C [] with ⟨I1, C, cm1⟩
+  rw [h1] at h
+  simp only at h
+  have hk := ra_genReadShares_keep G.q st (List.range st.n) I1 st.s st.sp cm1
+  rcases h2 : genReadShares G.q st (List.range st.n) I1 st.s st.sp cm1 with ⟨I2, s2, sp2, cm2⟩
+  rw [h2] at h hk
+  simp only at h hk
+  obtain ⟨⟨gs, cm3⟩, -, h⟩ := ag_bind_ok _ _ _ h
+  simp only [pure, Except.pure, Except.ok.injEq, Prod.mk.injEq] at h
+  obtain ⟨rfl, _, _⟩ := h
+  exact ⟨rfl, rfl, rfl, rfl, rfl, rfl, hk.1, hk.2⟩
+
+theorem ra_genCollect_keep (st : GenSt) (I : Inbox) :
+    (genCollect st I).1.vi = st.vi ∧ (genCollect st I).1.A = st.A ∧ (genCollect st I).1.ga = st.ga ∧
+    (genCollect st I).1.sfb = st.sfb ∧ (genCollect st I).1.z = st.z ∧ (genCollect st I).1.yi = st.yi ∧
+    (genCollect st I).1.s = st.s := by
+  unfold genCollect
+  rcases genCollectGo st (List.range st.n) I st.cnt [] [] with ⟨I1, cnt, cf, cm⟩
+  exact ⟨rfl, rfl, rfl, rfl, rfl, rfl, rfl⟩
+
+/-- what the later steps need of an honest party's state besides `S3` -/
+structure Extra (G : Grp) (n t : Nat) (ins : List PartyIn) (i : Nat) (st : GenSt) : Prop where
+  slen : st.s.length = n
+  sown : getI st.s i = shA G t (pinOf ins i) i
+  vi : st.vi = zeros n
+  A : st.A = zeroRows n t
+  ga : gaList G (coefA t (pinOf ins i)) = .ok st.ga
+  sfb : st.sfb = false
+  yi : st.yi = zeros n
+  z : st.z = (zeros n).set i (getI (coefA t (pinOf ins i)) 0)
+
+/-- one round whose step function keeps the extra fields -/
+theorem ra_extra_round (steps : Nat → Step GenSt) (R : List (Party GenSt)) (i : Nat) (P P' : Party GenSt)
+    (hP : R[i]? = some P) (hP' : (runRound steps R)[i]? = some P') (hi : P.st.i = i)
+    (hkeep : ∀ st I st' I' ops s, steps i st I = .ok (st', I', ops, s) →
+      st'.vi = st.vi ∧ st'.A = st.A ∧ st'.ga = st.ga ∧ st'.sfb = st.sfb ∧ st'.z = st.z ∧ st'.yi = st.yi ∧
+      st'.s.length = st.s.length ∧ getI st'.s st.i = getI st.s st.i)
+    (n t : Nat) (ins : List PartyIn) (he : Extra G n t ins i P.st) : Extra G n t ins i P'.st := by
+  obtain ⟨P1, hP1, hd⟩ := ag_runRound_party steps R i P hP
+  rw [hP'] at hP1
+  injection hP1 with hP1
+  subst hP1
+  rw [hd.st]
+  rcases ag_stepParty_st R.length (steps i) P with h | ⟨I, ops, status, h⟩
+  · rw [h]; exact he
+  · obtain ⟨k1, k2, k3, k4, k5, k6, k7, k8⟩ := hkeep _ _ _ _ _ _ h
+    rw [hi] at k8
+    exact ⟨k7.trans he.slen, k8.trans he.sown, k1.trans he.vi, k2.trans he.A, by rw [k3]; exact he.ga,
+      k4.trans he.sfb, k6.trans he.yi, k5.trans he.z⟩
+
+/-- the honest party `i` after rounds 0, 1, 2 -/
+theorem ra_R3 (S : Setting G n t ins) (hn64 : n < 2 ^ 64) (hf : n - (honestIdx ins).length ≤ t)
+    (i : Nat) (hi : i ∈ honestIdx ins) :
+    Inv3 G n t ins (runRound (genStep G ins n t 2) (runRound (genStep G ins n t 1)
+      (runRound (genStep G ins n t 0) (ps0 n t ins)))) ∧
+    ∃ P, (runRound (genStep G ins n t 2) (runRound (genStep G ins n t 1)
+      (runRound (genStep G ins n t 0) (ps0 n t ins))))[i]? = some P ∧
+      S3 G n t ins i P ∧ Extra G n t ins i P.st := by
+  have I1 := ag_round0 S
+  have I2 := ag_round1 S hn64 _ I1
+  have I3 := ag_round2 S hn64 hf _ I2
+  obtain ⟨P1, hP1, s1⟩ := I1.2.1 i hi
+  obtain ⟨P2, hP2, s2⟩ := I2.2.1 i hi
+  obtain ⟨P3, hP3, s3⟩ := I3.2.1 i hi
+  refine ⟨I3, P3, hP3, s3, ?_⟩
+  obtain ⟨hi1, hi2⟩ := (ag_mem_honestIdx ins i).mp hi
+  rw [S.hn] at hi1
+  have hd := s1.dealt
+  -- round 0
+  have e1 : Extra G n t ins i P1.st := by
+    have hP0 := ag_ps0_getElem? n t ins S.hn i hi1
+    obtain ⟨P1', hP1', hdl⟩ := ag_runRound_party (genStep G ins n t 0) (ps0 n t ins) i _ hP0
+    rw [hP1] at hP1'
+    injection hP1' with hP1'
+    subst hP1'
+    have hslen : P1.st.s.length = n := by rw [hd.s]; simp [zeros]
+    have hsown : getI P1.st.s i = shA G t (pinOf ins i) i := by
+      rw [hd.s, getI_set_self _ _ _ (by simp [zeros, hi1])]
+    rcases ag_stepParty_st (ps0 n t ins).length (genStep G ins n t 0 i) _ with h | ⟨I, ops, status, h⟩
+    · exfalso
+      have hC := hd.C
+      rw [hdl.st, h] at hC
+      have := congrArg List.length hC
+      simp [zeroRows] at this
+      omega
+    · rw [← hdl.st] at h
+      simp only [genStep] at h
+      obtain ⟨⟨st1, ops1, sx⟩, hg, h⟩ := ag_bind_ok _ _ _ h
+      simp only [pure, Except.pure, Except.ok.injEq, Prod.mk.injEq] at h
+      obtain ⟨rfl, _, _, _⟩ := h
+      obtain ⟨f1, f2, f3, f4, f5, f6⟩ := ra_genDeal_fields _ _ _ _ _ _ _ _ _ hg
+      exact ⟨hslen, hsown, f1, f2, f5, by rw [f3]; exact (ag_honest_unpack _ hi2).1, f4, f6⟩
+  have e2 : Extra G n t ins i P2.st :=
+    ra_extra_round (genStep G ins n t 1) _ i P1 P2 hP1 hP2 hd.hi
+      (fun st I st' I' ops s h => ra_genVerify_keep st I st' I' ops s h) n t ins e1
+  exact ra_extra_round (genStep G ins n t 2) _ i P2 P3 hP2 hP3 s2.hi
+    (fun st I st' I' ops s h => by
+      have h' : (genCollect st I) = (st', I', ops, s) := by
+        simp only [genStep, pure, Except.pure, Except.ok.injEq] at h
+        exact h
+      obtain ⟨k1, k2, k3, k4, k5, k6, k7⟩ := ra_genCollect_keep st I
+      rw [h'] at k1 k2 k3 k4 k5 k6 k7
+      simp only at k1 k2 k3 k4 k5 k6 k7
+      exact ⟨k1, k2, k3, k4, k5, k6, by rw [k7], by rw [k7]⟩) n t ins e2
+
+/-! ### (D) the key check from the states of rounds 3, 4, 5 -/
+
+theorem ra_ga_checkElement (hG : ValidGrp G) (a : List Int) (ha : ∀ c ∈ a, 0 ≤ c ∧ c < G.q) (ga : List Int)
+    (hga : gaList G a = .ok ga) : ∀ c ∈ ga, Dkg.checkElement G c = true := by
+  have : Fact (Nat.Prime G.q.natAbs) := fact_q hG
+  obtain ⟨ga', hga', hgb, hgm⟩ := gaList_aux hG a ha
+  rw [hga] at hga'
+  injection hga' with hga'
+  subst hga'
+  intro c hc
+  obtain ⟨k, hk, rfl⟩ := List.getElem_of_mem hc
+  have hka : k < a.length := by
+    have := congrArg List.length hgm
+    simp only [List.length_map] at this
+    omega
+  have hv : cp G ga[k] = cp G G.g ^ a[k] := by
+    have := List.getElem_of_eq hgm (by simpa using hk)
+    simpa using this
+  obtain ⟨h0, h1, -⟩ := hgb ga[k] (List.getElem_mem hk)
+  exact pl_checkElement_of_val hG _ a[k] 0 h0 h1 (by rw [hv]; simp)
+
+theorem ra_key (S : Setting G n t ins) (i : Nat) (hi : i ∈ honestIdx ins) (P3 : Party GenSt)
+    (s3 : S3 G n t ins i P3) (e3 : Extra G n t ins i P3.st)
+    (st4 : GenSt) (I4 : Inbox) (ops4 : List Op)
+    (h3 : genResolve G P3.st P3.inbox = .ok (st4, I4, ops4, .run))
+    (Ia : Inbox) (st5 : GenSt) (I5 : Inbox) (ops5 : List Op) (s5 : Status)
+    (h4 : genExtractCheck G st4 Ia = .ok (st5, I5, ops5, s5))
+    (Ib I1 : Inbox) (cm6 : List Nat)
+    (h5 : genExtractGo G st5 (List.range st5.n) Ib st5.compl = .ok (I1, cm6))
+    (hnil : sortUniq st5.n cm6 = []) (st6 : GenSt)
+    (hfin : genFinish G { st5 with compl := [], racc := [], todo := [] } = .ok st6) :
+    ∃ r, fspowm G.tabG G.g st6.x G.p = .ok r ∧ r = getI st6.vi i := by
+  have hG := S.hG
+  have : Fact (Nat.Prime G.q.natAbs) := fact_q hG
+  obtain ⟨hi1, hi2⟩ := (ag_mem_honestIdx ins i).mp hi
+  rw [S.hn] at hi1
+  -- round 3
+  obtain ⟨-, g1, g2, g3, g4, g5, g6, g7, g8, g9, g10, g11⟩ := ra_genResolve_shape _ _ _ _ _ _ h3
+  obtain ⟨hA4, hqi⟩ := g11 rfl
+  have hgs := genResolve_gs G _ _ _ _ _ _ h3
+  obtain ⟨I1', s', sp', cm3, hgo, hq4, hs4, -⟩ := genResolve_qual G _ _ _ _ _ _ h3
+  have hIb : ∀ j ∈ List.range P3.st.n, j < P3.inbox.b.length := fun j hj => by
+    rw [s3.blen, ← s3.hn]; exact List.mem_range.mp hj
+  obtain ⟨I'', s'', sp'', cm'', hgo', hin, -⟩ := ag_genResolveGo hG P3.st (List.range P3.st.n) List.nodup_range
+    P3.inbox hIb P3.st.s P3.st.sp P3.st.compl
+  rw [hgo] at hgo'
+  simp only [Except.ok.injEq, Prod.mk.injEq] at hgo'
+  obtain ⟨-, rfl, -, -⟩ := hgo'
+  have hInR : InR G.q st4.s := by rw [hs4]; exact hin s3.sIn
+  obtain ⟨hl4, ho4⟩ := ra_genResolveGo_own _ _ _ _ _ _ _ _ _ _ hgo
+  rw [← hs4] at hl4 ho4
+  rw [e3.slen] at hl4
+  rw [s3.hi, e3.sown] at ho4
+  rw [s3.hn] at g1 hq4
+  rw [s3.hi] at g3 hA4 hqi
+  rw [e3.sfb] at hA4
+  have hA4' : st4.A = (zeroRows n t).set i P3.st.ga := by
+    rw [hA4, e3.A]
+    simp
+  have hqnd : st4.qual.Nodup := by rw [hq4]; exact List.Nodup.filter _ List.nodup_range
+  have hqlt : ∀ j ∈ st4.qual, j < n := fun j hj => by
+    rw [hq4] at hj
+    exact List.mem_range.mp (List.mem_filter.mp hj).1
+  -- round 4
+  obtain ⟨Ix, A', cm4, hra, hst5, -⟩ := ra_genExtractCheck_shape _ _ _ _ _ _ h4
+  subst hst5
+  simp only at h5 hnil hfin
+  rw [g1] at hra h5 hnil
+  -- no own complaint
+  have hcm4 : ∀ j, j < n → j ∉ cm4 := by
+    intro j hj hm
+    have h1 : j ∈ sortUniq n cm4 := (ag_mem_sortUniq _ _ _).mpr ⟨hj, hm⟩
+    have h2 := ra_genExtractGo_mono _ _ _ _ _ _ h5 j h1
+    have h3 : j ∈ sortUniq n cm6 := (ag_mem_sortUniq _ _ _).mpr ⟨hj, h2⟩
+    rw [hnil] at h3
+    cases h3
+  -- round 5
+  obtain ⟨f1, f2, f3, f4, f5, f6, -, -, f9, -⟩ := ra_genFinish_shape _ _ hfin rfl
+  simp only at f1 f2 f3 f4 f5 f6 f9
+  -- the key check
+  have hck := checkKey_of_checks hG st6 (by rw [f3, f4]; exact hgs)
+    (fun j _ => by rw [f3]; exact ag_getI_InR G.q hG.vg.q_pos _ hInR j)
+    (fun j hj => by rw [f3, hl4]; rw [f2] at hj; exact hqlt j hj)
+    (by
+      intro j hj
+      rw [f2] at hj
+      rw [f1, f6, g3, f4]
+      by_cases hji : j = i
+      · subst hji
+        have hrow : getRow A' j = P3.st.ga := by
+          have := ra_genReadA_own _ _ _ _ _ _ _ _ hra
+          rw [g3] at this
+          rw [this, hA4', getRow_set_self _ _ _ (by simp [zeroRows, hi1])]
+        rw [hrow]
+        obtain ⟨ha, -, -, -⟩ := ag_coef_range (G := G) t (pinOf ins j) (S.hc j hi)
+        refine ⟨ra_ga_checkElement hG _ ha _ e3.ga, ?_⟩
+        obtain ⟨l, r, e1, e2, e3'⟩ := feldman_check hG _ ha _ e3.ga (j + 1)
+        have := run_gaList_get st4.s st4.gs hgs j (by rw [hl4]; exact hi1)
+        rw [ho4] at this
+        unfold shA at this
+        rw [e1] at this
+        injection this with this
+        rw [e2, ← e3', this]
+      · have hsound := (genReadA_sound G st4 (List.range n) List.nodup_range _ _ _ _ _ _ hra).2 j
+          (List.mem_range.mpr (hqlt j hj)) (by rw [g3]; exact hji) (by simpa using hj)
+          (by rw [hA4']; simp [zeroRows]; exact hqlt j hj) (hcm4 j (hqlt j hj))
+        rw [g3] at hsound
+        exact hsound)
+    (by rw [f5, f3, f2]; exact g10)
+  obtain ⟨v, r, hv, hr, hrv⟩ := hck
+  refine ⟨r, hr, ?_⟩
+  rw [f2, f1, f6, g3] at hv
+  obtain ⟨-, -, hfold⟩ := ra_viFold (fun jt => viOf G st4.qual A' jt) st4.qual st4.vi st6.vi f9 i
+  obtain ⟨v', hv', hget⟩ := hfold (by simpa using hqi) hqnd (by rw [g4, e3.vi]; simp [zeros, hi1])
+  skip
+  rw [hv] at hv'
+  injection hv' with hv'
+  rw [hrv, hget, hv']
+
 end Tmcg.DkgP
